@@ -522,9 +522,6 @@ func main() {
 				DoubleCheck:    repairFlags.doubleCheck,
 				RepairDelegate: par1LogRepairDelegate{},
 			})
-			if err != nil {
-				printRepairErrorAndExit(err, par2cmdline.ExitLogicError)
-			}
 			processRepairResultAndExit(result.RepairedPaths, par1.RepairErrorMeansRepairNecessaryButNotPossible, err)
 
 		case ".par2":
